@@ -1,12 +1,17 @@
 """C10 — KDMixCollator: image and label of sample i are mixed with the same partner and the same weight.
 
 Batches are id-encoded: pixel (ch, r, c) of sample k is  k (r+c even) / k*k (r+c odd)  + 100*ch, the
-one-hot label of sample k is k (or a random class / a scalar in [0,1] for the binary path), so partner,
-weight and pasted box can be decoded from what the real collator returns.  All draws of the collator's
-generator are recorded by a spy injected through the public set_rng and fed to the Coq model.
+one-hot label of sample k is k (or a random class / a soft row / a scalar in [0,1] for the binary path), so partner,
+weight and pasted box can be decoded from what the real collator returns.  The samples come from a real KDDataset
+(optionally below a real LabelSmoothingWrapper) through a real ModeWrapper; the collator runs directly, inside a
+KDComposeCollator / KDSingleCollatorWrapper, as the shipped MAEFinetuneMixCollator, and optionally through a real
+torch DataLoader (num_workers 0, or 2 with the dataset's worker_init_fn re-seeding the collator).  All draws of the
+collator's generator are recorded by a spy injected through the public set_rng (in a worker: wrapped around the
+generator worker_init_fn installed) and fed to the Coq model.
 """
 import random
 from fractions import Fraction
+from math import isqrt
 
 from .common import C, Nat, Opt, Raw, Rec, coq
 
@@ -20,31 +25,57 @@ SHARD = 120
 ALLOWED_AXIOMS = []
 TRUSTED = [
     "hand-written model coq/C10/Model.v of KDMixCollator.collate/shuffle/get_random_bbox and of "
-    "ModeWrapper.get_item/set_item (repaired tree); tied to KD_REPO by this run's correspondence evaluation",
+    "ModeWrapper.get_item/set_item (repaired tree); tied to KD_REPO by this run's correspondence evaluation "
+    "(decoded images / labels, the three ctx entries, every draw, the exception class of every rejection)",
     "pixel/label float32 arithmetic is not modelled: the model emits descriptors (partner, weight | box); the harness "
     "decodes id-encoded outputs (exact equality for pasted pixels, tolerance 2e-3 on mixed pixel values <= 64, "
     "1e-5 on label entries and lambdas)",
-    "half box sizes floor(0.5*sqrt(1-lambda)*h) are obtained by calling the implementation's own get_random_bbox "
-    "with zero centres on the lambda tensor it was called with; theorems quantify over all non-negative half sizes",
+    "half box sizes: the model takes the integers the implementation's float expression produced (obtained by calling "
+    "its get_random_bbox with zero centres on the lambda tensor it was called with); Spec.half_spec states the exact "
+    "value floor(0.5*sqrt(1-lambda)*h) by integer square root (theorems half_spec_correct / half_ok_unique), the Coq "
+    "check and the Python oracle compare every shipped half size with it on the lambda the implementation held "
+    "(float32 rounding of the draw in lamb_mode batch, the draw itself in lamb_mode sample), granting +-1 only where "
+    "the exact value is within 1e-6 (float64) / 1e-4 (float32) of an integer; the other theorems quantify over all "
+    "non-negative half sizes",
     "generator contract: random() in [0,1), beta in [0,1], integers(h) in [0,h), permutation(n) is a permutation",
-    "torch.default_collate, Tensor.roll/flip/fancy indexing/slice assignment behave as documented",
-    "harness/c10.py: spy generator, scripted generator (edge draws), id-encoding and decoding",
+    "torch.default_collate, DataLoader, Tensor.roll/flip/fancy indexing/slice assignment behave as documented",
+    "harness/c10.py: spy generator, scripted generator (edge draws), id-encoding and decoding, the recorder wrapped "
+    "around the collator pipeline (it only observes: ctx dict, arguments of get_random_bbox)",
 ]
 ASSUMPTIONS = [
     "mixup_p + cutmix_p == 1.0 (the constructor raises NotImplementedError otherwise), so `apply` is always true",
-    "the batch contains an image item x of shape (B, C, H, W), B >= 1; labels are one-hot rows or 1-d values in [0,1]",
-    "flip shuffling is defined for even batch sizes (odd: the collator's assertion fires; counted as expected)",
+    "domain of the claim (Proofs.in_domain): the batch has an image item x of shape (B, C, H, W) with a float dtype, "
+    "B >= 1; labels are rows (2-d, one-hot / soft / smoothed) or 1-d values in [0,1]; flip shuffling only for even B "
+    "(or B = 1).  Everything else is rejected explicitly and modelled as an error value (theorem errors_explained): "
+    "AssertionError (odd B under flip; labels that are class indices > 1, outside [0,1] or of rank 3), ValueError "
+    "(`h, w = x.shape[2:]` for images that are not (C,H,W) when a box is needed), RuntimeError (in-place mixup of an "
+    "integer image), TypeError (0-d samples in lamb_mode sample; no x item).  Where the rejected operation is not "
+    "needed (pure mixup of (H,W) / (D,) / (C,T,H,W) inputs, pure cutmix of uint8 images) the collator works and the "
+    "property is checked",
+    "1-d integer labels in {0,1} are binary labels for the collator whatever the dataset meant (inherent ambiguity)",
+    "context entries recorded by the dataset use keys other than the collator's own 'apply', 'use_cutmix', 'lambda'",
     "samples handed to the collator are not aliased (default_collate stacks copies)",
 ]
-RULE = ("B in 1..9, 1-3 channels, H,W in 4..17 independently, all apply/lamb/shuffle mode combinations, probability "
-        "splits summing to exactly 1.0 incl. pure mixup / pure cutmix, alphas 0.1..5, item orders with index/aux items "
-        "and the single-item mode 'x', label kinds one-hot id / one-hot random / binary float / binary int, draws "
-        "from numpy default_rng(seed) or a scripted generator injecting edge draws (lambda 0/1, centres at the "
-        "border, identity permutation); non-trivial = B >= 2 and outcome ok; distinct by "
-        "(B,H,W,modes,probabilities,tokens,label kind,per-sample cut flags)")
+RULE = ("B in 1..9, 1-3 channels, H,W in 4..17 independently (some up to 40), all apply/lamb/shuffle mode combinations, "
+        "probability splits summing to exactly 1.0 incl. pure mixup / pure cutmix, alphas 0.1..5; pipelines: collator "
+        "called directly / in KDComposeCollator / in KDSingleCollatorWrapper / the shipped MAEFinetuneMixCollator(), "
+        "return_ctx on and off, in-process or through a torch DataLoader over a real KDDataset+ModeWrapper (trailing "
+        "batches incl. B = 1; thorough: 2 workers re-seeded by the dataset's worker_init_fn); item orders with index / "
+        "aux items of dtypes int64, float64, float16, uint8, bool, Python scalars and the single-item mode 'x'; ctx "
+        "entries recorded per sample by the dataset (int, float, bool, int16 / float32 tensors); label kinds one-hot id "
+        "/ random / long, soft rows, real LabelSmoothingWrapper (multi-class and binary), binary float / int, and the "
+        "rejected kinds (class indices, out of range, rank 3); image dtypes float32/float64/uint8/int64 and ranks "
+        "(C,H,W) / (H,W) / (D,) / () / (C,T,H,W); draws from numpy default_rng(seed) or a scripted generator injecting "
+        "edge draws (lambda 0/1, centres at the border, identity permutation); non-trivial = B >= 2 and outcome ok; "
+        "distinct by (B,H,W,modes,probabilities,tokens,label kind,pipeline,dtype,rank,per-sample cut flags)")
 
 PROBS = [(1.0, 0.0), (0.0, 1.0), (0.5, 0.5), (0.25, 0.75), (0.75, 0.25), (0.125, 0.875), (0.9, 0.1), (0.2, 0.8)]
 ALPHAS = [0.1, 0.3, 0.8, 1.0, 1, 2.0, 5.0]
+XRANK = {"chw": 3, "hw": 2, "d": 1, "b": 0, "cthw": 4}
+MAE_CFG = {"mixup_alpha": 0.8, "cutmix_alpha": 1.0, "mixup_p": 0.5, "cutmix_p": 0.5, "apply_mode": "batch",
+           "lamb_mode": "batch", "shuffle_mode": "flip"}
+OUTCOME = {"ok": 0, "AssertionError:flip": 1, "AssertionError:label": 2, "ValueError:unpack": 3, "RuntimeError:cast": 4,
+           "TypeError:view": 5, "TypeError:nox": 6}
 
 
 # ---------------------------------------------------------------------------
@@ -149,13 +180,21 @@ class ZeroCentres:
         return np.zeros(size, dtype=np.int64)
 
 
+class NotReseeded:
+    """the generator a collator holds before the DataLoader workers start: every draw is an error, so a worker_init_fn
+    that does not reach the collator is noticed"""
+
+    def __getattr__(self, name):
+        raise RuntimeError("the collator's generator was not re-seeded by the dataset's worker_init_fn")
+
+
 def make_rng(case):
+    import math
     import numpy as np
     kind, seed = case["rng"]
     if kind == "numpy":
         return Spy(np.random.default_rng(seed))
     cp = case["cutmix_p"] or 0.0
-    import math
     edges = [0.0, 0.5, cp, math.nextafter(cp, 0.0) if cp > 0 else 0.0, math.nextafter(1.0, 0.0)]
     edges = [e for e in edges if 0.0 <= e < 1.0]
     return Spy(ScriptRng(seed, edges))
@@ -164,6 +203,18 @@ def make_rng(case):
 # ---------------------------------------------------------------------------
 # id-encoded batches
 # ---------------------------------------------------------------------------
+def eff_dims(case):
+    """(C, H, W) of the canonical view of one sample used for decoding"""
+    r = case.get("xrank", "chw")
+    if r in ("chw", "cthw"):
+        return case["C"], case["H"], case["W"]
+    if r == "hw":
+        return 1, case["H"], case["W"]
+    if r == "d":
+        return 1, 1, case["W"]
+    return 1, 1, 1
+
+
 def pattern(k, ch, h, w):
     import torch
     r = torch.arange(h).view(h, 1)
@@ -173,45 +224,349 @@ def pattern(k, ch, h, w):
     return base.unsqueeze(0).repeat(ch, 1, 1) + 100.0 * torch.arange(ch).view(ch, 1, 1).float()
 
 
+def x_sample(case, k):
+    """sample k (position in the batch) in the configured rank and dtype"""
+    import torch
+    ch, h, w = eff_dims(case)
+    p = pattern(k, ch, h, w)
+    r = case.get("xrank", "chw")
+    if r == "hw":
+        p = p[0]
+    elif r == "d":
+        p = p[0, 0]
+    elif r == "b":
+        p = p[0, 0, 0]
+    elif r == "cthw":
+        p = torch.stack([p, p], dim=1)
+    return p.to(getattr(torch, case.get("xdtype", "float32")))
+
+
+def canonical(case, t):
+    """one returned sample -> (C, H, W) double tensor, or None if the two frames of a (C,T,H,W) sample differ"""
+    import torch
+    ch, h, w = eff_dims(case)
+    r = case.get("xrank", "chw")
+    t = t.double()
+    if r == "cthw":
+        if not torch.equal(t[:, 0], t[:, 1]):
+            return None
+        t = t[:, 0]
+    return t.reshape(ch, h, w)
+
+
+def f32(v):
+    import numpy as np
+    return float(np.float32(v))
+
+
 def label_matrix(case):
     """input label rows as Fractions (what the collator sees after .type(float32))"""
-    kind, vals = case["labels"]
-    if kind in ("onehot_id", "onehot_rand"):
-        n = case["ncls"]
+    lab = case["labels"]
+    kind, vals = lab[0], lab[1][:case["B"]]     # rows of the checked batch (a loader's full batches have more)
+    n = case["ncls"]
+    if kind in ("onehot_id", "onehot_rand", "onehot_long"):
         return [[Fraction(1 if j == v else 0) for j in range(n)] for v in vals]
-    if kind == "binary":
+    if kind == "soft":
+        return [[Fraction(a, 16) for a in v] for v in vals]
+    if kind == "smooth":
+        s = lab[2]
+        off = s / n
+        on = 1. - s + off
+        return [[Fraction(f32(on if j == v else off)) for j in range(n)] for v in vals]
+    if kind == "binary_smooth":
+        s = lab[2]
+        off = s / 2
+        return [[Fraction(f32(v - off if v > 0.5 else v + off))] for v in vals]
+    if kind in ("binary", "binary_out"):
         return [[Fraction(v, 16)] for v in vals]
-    return [[Fraction(v)] for v in vals]
+    if kind == "rank3":
+        return [[Fraction(v), Fraction(0), Fraction(0), Fraction(1 - v)] for v in vals]
+    return [[Fraction(v)] for v in vals]          # binary_int, index
 
 
-def make_sample(case, k):
+def label_ndim(case):
+    kind = case["labels"][0]
+    if kind in ("onehot_id", "onehot_rand", "onehot_long", "soft", "smooth"):
+        return 2
+    return 3 if kind == "rank3" else 1
+
+
+def labels_valid(case):
+    if label_ndim(case) == 2:
+        return True
+    if label_ndim(case) == 3:
+        return False
+    return all(0 <= r[0] <= 1 for r in label_matrix(case))
+
+
+def label_value(case, k):
+    """what the root dataset's getitem_class returns for batch position k"""
     import torch
-    items = []
-    kind, vals = case["labels"]
+    lab = case["labels"]
+    kind, vals = lab[0], lab[1]
+    if kind in ("onehot_id", "onehot_rand"):
+        return torch.nn.functional.one_hot(torch.tensor(vals[k]), case["ncls"]).float()
+    if kind == "onehot_long":
+        return torch.nn.functional.one_hot(torch.tensor(vals[k]), case["ncls"])
+    if kind == "soft":
+        return torch.tensor([a / 16.0 for a in vals[k]], dtype=torch.float32)
+    if kind in ("binary", "binary_out"):
+        return vals[k] / 16.0
+    if kind == "rank3":
+        return torch.tensor([[float(vals[k]), 0.0], [0.0, 1.0 - vals[k]]])
+    return int(vals[k])                          # smooth, binary_smooth (smoothed by the wrapper), binary_int, index
+
+
+CTX_KINDS = ["int", "float", "bool", "i16", "f32"]
+
+
+def ctx_value(kind, idx):
+    import torch
+    if kind == "int":
+        return idx * 3 + 1
+    if kind == "float":
+        return idx / 8.0 + 0.1
+    if kind == "bool":
+        return idx % 2 == 0
+    if kind == "i16":
+        return torch.tensor([idx, -idx], dtype=torch.int16)
+    return torch.tensor(idx * 0.5 + 0.25)
+
+
+def ctx_expected(kind, idxs):
+    import torch
+    if kind == "int":
+        return torch.tensor([i * 3 + 1 for i in idxs], dtype=torch.int64)
+    if kind == "float":
+        return torch.tensor([i / 8.0 + 0.1 for i in idxs], dtype=torch.float64)
+    if kind == "bool":
+        return torch.tensor([i % 2 == 0 for i in idxs], dtype=torch.bool)
+    if kind == "i16":
+        return torch.tensor([[i, -i] for i in idxs], dtype=torch.int16)
+    return torch.tensor([i * 0.5 + 0.25 for i in idxs], dtype=torch.float32)
+
+
+AUX_KINDS = ["int64", "float64", "f16", "u8", "bool", "pyint", "pyfloat"]
+
+
+def aux_value(kind, j, idx):
+    import torch
+    if kind == "int64":
+        return torch.tensor([idx * 3 + j, -idx])
+    if kind == "float64":
+        return torch.tensor([idx / 3.0, float(j)], dtype=torch.float64)
+    if kind == "f16":
+        return torch.tensor([[idx * 0.5, j]], dtype=torch.float16)
+    if kind == "u8":
+        return torch.tensor([idx % 256, 255 - j], dtype=torch.uint8)
+    if kind == "bool":
+        return torch.tensor([idx % 2 == 0, idx % 3 == 0])
+    if kind == "pyint":
+        return idx * 7 + j
+    return idx / 7.0 + j
+
+
+def aux_expected(kind, j, idxs):
+    import torch
+    if kind == "int64":
+        return torch.tensor([[i * 3 + j, -i] for i in idxs], dtype=torch.int64)
+    if kind == "float64":
+        return torch.tensor([[i / 3.0, float(j)] for i in idxs], dtype=torch.float64)
+    if kind == "f16":
+        return torch.tensor([[[i * 0.5, j]] for i in idxs], dtype=torch.float16)
+    if kind == "u8":
+        return torch.tensor([[i % 256, 255 - j] for i in idxs], dtype=torch.uint8)
+    if kind == "bool":
+        return torch.tensor([[i % 2 == 0, i % 3 == 0] for i in idxs], dtype=torch.bool)
+    if kind == "pyint":
+        return torch.tensor([i * 7 + j for i in idxs], dtype=torch.int64)
+    return torch.tensor([i / 7.0 + j for i in idxs], dtype=torch.float64)
+
+
+def raw_ints(t):
+    """bit pattern of a tensor as a list of ints (so that 'unchanged' means bit for bit)"""
+    import torch
+    if not isinstance(t, torch.Tensor):
+        return None
+    t = t.contiguous()
+    if t.dtype == torch.float64:
+        t = t.view(torch.int64)
+    elif t.dtype == torch.float32:
+        t = t.view(torch.int32)
+    elif t.dtype == torch.float16:
+        t = t.view(torch.int16)
+    elif t.dtype == torch.bool:
+        t = t.to(torch.uint8)
+    return [int(v) for v in t.flatten()]
+
+
+def same_tensor(a, b):
+    import torch
+    return (isinstance(a, torch.Tensor) and a.dtype == b.dtype and a.shape == b.shape
+            and raw_ints(a) == raw_ints(b))
+
+
+def aux_kind(case, t):
+    return (case.get("auxdt") or {}).get(t, "int64")
+
+
+def layout(case):
+    """(Bfull, k, workers): the checked batch is batch k of a loader with batch size Bfull over k*Bfull + B samples"""
+    ld = case.get("loader")
+    if not ld:
+        return case["B"], 0, None
+    return ld["full"], ld["k"], ld["workers"]
+
+
+def batch_indices(case):
+    full, k, _ = layout(case)
+    return [k * full + i for i in range(case["B"])]
+
+
+def build_dataset(case, collators):
+    import torch
+    from kappadata.datasets.kd_dataset import KDDataset
+    full, k, _ = layout(case)
+    n_total = k * full + case["B"]
+    ctxitems = case.get("ctxitems") or []
+
+    class IdDataset(KDDataset):
+        def __init__(self):
+            super().__init__(collators=collators)
+
+        def __len__(self):
+            return n_total
+
+        def getitem_x(self, idx, ctx=None):
+            if ctx is not None:
+                for j, kind in enumerate(ctxitems):
+                    ctx[f"u{j}"] = ctx_value(kind, idx)
+            return x_sample(case, idx % full)
+
+        def getitem_class(self, idx, ctx=None):
+            return label_value(case, idx % full)
+
+        def getshape_class(self):
+            return (1,) if case["labels"][0] == "binary_smooth" else (case["ncls"],)
+
     for t in case["tokens"]:
-        if t == "x":
-            items.append(pattern(k, case["C"], case["H"], case["W"]))
-        elif t == "class":
-            if kind in ("onehot_id", "onehot_rand"):
-                items.append(torch.nn.functional.one_hot(torch.tensor(vals[k]), case["ncls"]).float())
-            elif kind == "binary":
-                items.append(vals[k] / 16.0)
-            else:
-                items.append(int(vals[k]))
-        elif t == "index":
-            items.append(100 + 7 * k)
-        else:
-            items.append(torch.tensor([k * 3 + int(t[3:]), -k]))
-    return tuple(items) if len(items) > 1 else items[0]
+        if t.startswith("aux"):
+            j = int(t[3:])
+            kind = aux_kind(case, t)
+            setattr(IdDataset, "getitem_" + t, (lambda self, idx, ctx=None, _j=j, _k=kind: aux_value(_k, _j, idx)))
+    return IdDataset()
+
+
+def build_pipeline(case, mode, rc):
+    """-> (callable handed the list of samples, the KDMixCollator inside it)"""
+    from kappadata.collators import KDComposeCollator, KDMixCollator, KDSingleCollatorWrapper
+    pipe = case.get("pipe", "direct")
+    if pipe == "mae":
+        from kappadata.common.collators.mae_finetune_mix_collator import MAEFinetuneMixCollator
+        top = MAEFinetuneMixCollator()
+        return top, top.collators[0]
+    kw = dict(mixup_alpha=case["mixup_alpha"], cutmix_alpha=case["cutmix_alpha"], mixup_p=case["mixup_p"],
+              cutmix_p=case["cutmix_p"], apply_mode=case["apply_mode"], lamb_mode=case["lamb_mode"],
+              shuffle_mode=case["shuffle_mode"])
+    if pipe == "direct":
+        mix = KDMixCollator(dataset_mode=mode, return_ctx=rc, **kw)
+        return mix, mix
+    mix = KDMixCollator(**kw)
+    if pipe == "compose":
+        return KDComposeCollator(collators=[mix], dataset_mode=mode, return_ctx=rc), mix
+    return KDSingleCollatorWrapper(collator=mix, dataset_mode=mode, return_ctx=rc), mix
+
+
+def classify(e):
+    s = str(e)
+    n = type(e).__name__
+    if isinstance(e, AssertionError):
+        return "AssertionError:label" if "one-hot" in s else "AssertionError:flip" if s.strip() == "" or "len(item)" in s \
+            else "AssertionError: " + s[:120]
+    if isinstance(e, ValueError) and "to unpack" in s:
+        return "ValueError:unpack"
+    if isinstance(e, RuntimeError) and "can't be cast" in s:
+        return "RuntimeError:cast"
+    if isinstance(e, TypeError) and "view()" in s:
+        return "TypeError:view"
+    if isinstance(e, TypeError) and "NoneType" in s and "len()" in s:
+        return "TypeError:nox"
+    if isinstance(e, NotImplementedError):
+        return "NotImplementedError"
+    return n + ": " + s[:200]
+
+
+class Recorder:
+    """the collate_fn handed to the DataLoader: calls the real pipeline and reports, next to its result, what the
+    KDMixCollator inside was given and drew (observation only)"""
+
+    def __init__(self, top, mix, in_worker):
+        self.top, self.mix, self.in_worker = top, mix, in_worker
+        self.bbox_calls = []
+        self.ctxs = []
+        orig_bbox = mix.get_random_bbox
+        orig_collate = mix.collate
+        self.orig_bbox = orig_bbox
+
+        def recording_bbox(h, w, lamb):
+            self.bbox_calls.append((h, w, lamb.clone()))
+            return orig_bbox(h=h, w=w, lamb=lamb)
+
+        def recording_collate(batch, dataset_mode, ctx=None):
+            self.ctxs.append(ctx)
+            return orig_collate(batch, dataset_mode, ctx)
+
+        mix.get_random_bbox = recording_bbox
+        mix.collate = recording_collate
+
+    def __call__(self, batch):
+        import torch
+        mix = self.mix
+        rep = {"result": "ok", "n": len(batch)}
+        if self.in_worker:
+            info = torch.utils.data.get_worker_info()
+            rep["worker"] = None if info is None else info.id
+            if not isinstance(mix.rng, (Spy, NotReseeded)):
+                mix.set_rng(Spy(mix.rng))          # transparent: wraps the generator worker_init_fn installed
+        spy = mix.rng
+        if isinstance(spy, Spy):
+            spy.trace = []
+        del self.bbox_calls[:]
+        del self.ctxs[:]
+        out = None
+        try:
+            out = self.top(batch)
+        except Exception as e:
+            rep["result"] = classify(e)
+        rep["trace"] = list(spy.trace) if isinstance(spy, Spy) else None
+        halves, held = [], []
+        keep = mix.rng
+        mix.rng = ZeroCentres()
+        try:
+            for (h, w, lamb) in self.bbox_calls:
+                # zero centres: bot = half height, right = half width
+                bb, _ = self.orig_bbox(h=h, w=w, lamb=lamb)
+                halves += [[int(r[2]), int(r[3])] for r in bb]
+                held += [float(v) for v in lamb]
+        finally:
+            mix.rng = keep
+        rep["halves"], rep["held"] = halves, held
+        rep["out"] = out
+        rep["ctx"] = self.ctxs[-1] if self.ctxs else None
+        rep["n_collate_calls"] = len(self.ctxs)
+        return rep
 
 
 def summarise_image(out, i, case):
     """-> ["U", v1, v2] | ["P", q, [top,left,bot,right]] | ["O", why]"""
     import torch
-    ch, h, w = case["C"], case["H"], case["W"]
-    off = 100.0 * torch.arange(ch).view(ch, 1, 1).float()
-    o = out.double() - off.double()
-    own = (pattern(i, ch, h, w) - off).double()
+    ch, h, w = eff_dims(case)
+    off = 100.0 * torch.arange(ch).view(ch, 1, 1).double()
+    o = canonical(case, out)
+    if o is None:
+        return ["O", "the frames of the sample differ"]
+    o = o - off
+    own = pattern(i, ch, h, w).double() - off
     own_mask = (o == own)
     r = torch.arange(h).view(h, 1)
     c = torch.arange(w).view(1, w)
@@ -221,7 +576,7 @@ def summarise_image(out, i, case):
         for q in range(case["B"]):
             if q == i:
                 continue
-            pq = (pattern(q, ch, h, w) - off).double()
+            pq = pattern(q, ch, h, w).double() - off
             if bool((o[foreign] == pq[foreign]).all()):
                 if bool(foreign.all()):
                     break  # the whole image is sample q's: reported as uniform
@@ -238,88 +593,150 @@ def summarise_image(out, i, case):
                     return ["O", "pasted region is not a rectangle"]
                 return ["P", q, [top, left, bot, right]]
     ev, od = o[even], o[~even]
-    v1, v2 = float(ev[0]), float(od[0])
-    if float((ev - v1).abs().max()) > 5e-4 or float((od - v2).abs().max()) > 5e-4:
+    v1 = float(ev[0])
+    v2 = float(od[0]) if od.numel() else float(i * i) + (v1 - float(i))   # a single pixel has no odd position
+    if float((ev - v1).abs().max()) > 5e-4 or (od.numel() and float((od - v2).abs().max()) > 5e-4):
         return ["O", "neither a rectangle of another sample nor uniform per parity"]
+    if not od.numel():
+        v2 = None
     return ["U", v1, v2]
 
 
 def run_impl(case):
+    import gc
+    import numpy as np
     import torch
-    from torch.utils.data import default_collate
-    from kappadata.collators.kd_mix_collator import KDMixCollator
-    mode = " ".join(case["tokens"])
+    from torch.utils.data import DataLoader
+    from kappadata.wrappers.mode_wrapper import ModeWrapper
+    from kappadata.wrappers.sample_wrappers.label_smoothing_wrapper import LabelSmoothingWrapper
+    toks = case["tokens"]
+    mode = " ".join(toks)
     b = case["B"]
-    coll = KDMixCollator(
-        mixup_alpha=case["mixup_alpha"], cutmix_alpha=case["cutmix_alpha"],
-        mixup_p=case["mixup_p"], cutmix_p=case["cutmix_p"],
-        apply_mode=case["apply_mode"], lamb_mode=case["lamb_mode"], shuffle_mode=case["shuffle_mode"],
-        dataset_mode=mode, return_ctx=True,
-    )
-    spy = make_rng(case)
-    coll.set_rng(spy)
-    bbox_calls = []
-    orig = coll.get_random_bbox
-
-    def recording_bbox(h, w, lamb):
-        bbox_calls.append((h, w, lamb.clone()))
-        return orig(h=h, w=w, lamb=lamb)
-
-    coll.get_random_bbox = recording_bbox
-    samples = [make_sample(case, k) for k in range(b)]
-    reference = default_collate([make_sample(case, k) for k in range(b)])
+    pipe = case.get("pipe", "direct")
+    rc = False if pipe == "mae" else case.get("rc", True)
+    full, k, workers = layout(case)
+    np.random.seed(case["rng"][1] % (2 ** 31))
+    torch.manual_seed(case["rng"][1])
+    top, mix = build_pipeline(case, mode, rc)
     obs = {"result": "ok"}
-    try:
-        out, ctx = coll([(s, {"k": k}) for k, s in enumerate(samples)])
-    except AssertionError:
-        obs["result"] = "AssertionError"
-    except NotImplementedError:
-        obs["result"] = "NotImplementedError"
-    except Exception as e:
-        obs["result"] = type(e).__name__ + ": " + str(e)[:200]
-    obs["trace"] = spy.trace
-    # half box sizes from the implementation's own expression (zero centres: bot = half height, right = half width)
-    halves = []
-    coll.rng = ZeroCentres()
-    for (h, w, lamb) in bbox_calls:
-        bb, _ = orig(h=h, w=w, lamb=lamb)
-        halves += [[int(r[2]), int(r[3])] for r in bb]
-    obs["halves"] = halves
+    obs["cfg"] = {a: getattr(mix, a) for a in ("mixup_alpha", "cutmix_alpha", "mixup_p", "cutmix_p", "apply_mode",
+                                                "lamb_mode", "shuffle_mode")}
+    root = build_dataset(case, [top])
+    ds = root
+    if case["labels"][0] in ("smooth", "binary_smooth"):
+        ds = LabelSmoothingWrapper(dataset=ds, smoothing=case["labels"][2])
+    mw = ModeWrapper(dataset=ds, mode=mode, return_ctx=rc)
+    in_worker = bool(workers)
+    recorder = Recorder(top, mix, in_worker)
+    if in_worker:
+        top.set_rng(NotReseeded())
+    else:
+        top.set_rng(make_rng(case))
+    if case.get("loader"):
+        loader = DataLoader(mw, batch_size=full, shuffle=False, drop_last=False, num_workers=workers,
+                            collate_fn=recorder, worker_init_fn=mw.worker_init_fn if workers else None)
+        reps = []
+        for rep in loader:
+            reps.append(rep)
+        del loader
+        if workers:
+            gc.collect()     # no stale worker-iterator objects may survive into the next fork
+        obs["n_batches"] = len(reps)
+        obs["batch_sizes"] = [r["n"] for r in reps]
+        if workers:
+            obs["workers_seen"] = sorted({r.get("worker") for r in reps})
+            firsts = {}
+            for r in reps:
+                if r["trace"]:
+                    firsts.setdefault(r.get("worker"), r["trace"])
+            if len(firsts) > 1:
+                obs["worker_first_traces_differ"] = len({str(t) for t in firsts.values()}) == len(firsts)
+        if len(reps) != k + 1:
+            obs["result"] = f"loader produced {len(reps)} batches, expected {k + 1}"
+            return obs
+        rep = reps[k]
+    else:
+        rep = recorder([mw[i] for i in range(b)])
+    obs["result"] = rep["result"]
+    obs["trace"] = rep["trace"]
+    obs["halves"] = rep["halves"]
+    obs["held"] = rep["held"]
+    if obs["trace"] is None:
+        obs["result"] = "no generator installed: " + obs["result"]
     if obs["result"] != "ok":
         return obs
-    toks = case["tokens"]
+    out = rep["out"]
+    ctx = rep["ctx"]
+    if rc:
+        if not (isinstance(out, tuple) and len(out) == 2 and isinstance(out[1], dict)):
+            obs["layout"] = "return_ctx: got " + type(out).__name__
+            return obs
+        out, ctx_ret = out
+        obs["ctx_returned_is_ctx_used"] = ctx_ret is ctx or (set(ctx_ret) == set(ctx or {}))
+        ctx = ctx_ret
+    if rep["n_collate_calls"] != 1 or ctx is None:
+        obs["layout"] = f"KDMixCollator.collate was called {rep['n_collate_calls']} times"
+        return obs
     if len(toks) == 1:
         obs["layout"] = "tensor" if isinstance(out, torch.Tensor) else f"{type(out).__name__}[{len(out)}]"
         out_items = [out]
-        reference = [reference]
     else:
         obs["layout"] = "tuple" if isinstance(out, tuple) and len(out) == len(toks) else f"{type(out).__name__}[{len(out)}]"
         out_items = list(out)
     if obs["layout"] not in ("tensor", "tuple"):
         return obs
-    others, others_ok = [], True
-    for t, it, ref in zip(toks, out_items, reference):
+    idxs = batch_indices(case)
+    others, others_in, others_ok = [], [], True
+    xs0 = x_sample(case, 0)
+    for t, it in zip(toks, out_items):
         if t == "x":
-            if not (isinstance(it, torch.Tensor) and tuple(it.shape) == (b, case["C"], case["H"], case["W"])):
-                obs["layout"] = "x has shape " + str(getattr(it, "shape", None))
+            if not (isinstance(it, torch.Tensor) and tuple(it.shape) == (b,) + tuple(xs0.shape) and it.dtype == xs0.dtype):
+                obs["layout"] = "x has shape/dtype " + str(getattr(it, "shape", None)) + str(getattr(it, "dtype", None))
                 return obs
             obs["img"] = [summarise_image(it[i], i, case) for i in range(b)]
             others.append("X")
+            others_in.append("X")
         elif t == "class":
+            if not isinstance(it, torch.Tensor) or it.ndim not in (1, 2) or it.dtype != torch.float32:
+                obs["layout"] = "class item is " + str(getattr(it, "shape", type(it).__name__)) + str(getattr(it, "dtype", ""))
+                return obs
             if it.ndim == 1:
                 obs["lab"] = [[float(v)] for v in it]
             else:
                 obs["lab"] = [[float(v) for v in row] for row in it]
             obs["lab_ndim"] = it.ndim
             others.append("Y")
+            others_in.append("Y")
         else:
-            same = isinstance(it, torch.Tensor) and it.dtype == ref.dtype and it.shape == ref.shape and bool(torch.equal(it, ref))
-            others_ok = others_ok and same
-            others.append([int(v) for v in it.flatten()] if isinstance(it, torch.Tensor) else ["?"])
+            exp = torch.tensor(idxs, dtype=torch.int64) if t == "index" else aux_expected(aux_kind(case, t), int(t[3:]), idxs)
+            others_ok = others_ok and same_tensor(it, exp)
+            others.append(raw_ints(it) if isinstance(it, torch.Tensor) else ["?"])
+            others_in.append(raw_ints(exp))
     obs["others"] = others
+    obs["others_in"] = others_in
     obs["others_ok"] = others_ok
-    obs["ctx_keys"] = sorted(ctx.keys())
-    obs["ctx_k_ok"] = bool(torch.equal(ctx["k"], torch.arange(b)))
+    # the context: user entries bit for bit, then the collator's own three
+    ctxitems = (case.get("ctxitems") or []) if rc else []
+    ctx_in, ctx_out, ctx_ok = [], [], True
+    for j, kind in enumerate(ctxitems):
+        ctx_in.append([j, raw_ints(ctx_expected(kind, idxs))])
+    for key, val in ctx.items():
+        if key.startswith("u") and key[1:].isdigit():
+            j = int(key[1:])
+            ctx_out.append(["u", j, raw_ints(val) if isinstance(val, torch.Tensor) else ["?"]])
+            ok = j < len(ctxitems) and same_tensor(val, ctx_expected(ctxitems[j], idxs))
+            ctx_ok = ctx_ok and ok
+        elif key in ("apply", "use_cutmix", "lambda"):
+            ctx_out.append([key])
+        else:
+            ctx_out.append(["?", key])
+            ctx_ok = False
+    ctx_ok = ctx_ok and [e[1] for e in ctx_out if e[0] == "u"] == list(range(len(ctxitems)))
+    obs["ctx_in"], obs["ctx_out"], obs["ctx_user_ok"] = ctx_in, ctx_out, ctx_ok
+    obs["ctx_keys"] = list(ctx.keys())
+    if not all(key in ctx for key in ("apply", "use_cutmix", "lambda")):
+        obs["layout"] = "ctx lacks apply/use_cutmix/lambda: " + str(list(ctx.keys()))
+        return obs
     obs["apply"] = [bool(v) for v in ctx["apply"]]
     uc = ctx["use_cutmix"]
     obs["cutmix"] = [bool(v) for v in uc] if isinstance(uc, torch.Tensor) else [bool(uc)]
@@ -330,11 +747,18 @@ def run_impl(case):
 # ---------------------------------------------------------------------------
 # independent Python statement of the property
 # ---------------------------------------------------------------------------
+def modes_of(case, obs):
+    """the shipped MAE collator is taken as configured; otherwise the case says how the collator was built"""
+    if case.get("pipe") == "mae" and "cfg" in obs:
+        return obs["cfg"]
+    return case
+
+
 def expected_partner(case, obs, i):
     b = case["B"]
     if b == 1:
         return 0
-    m = case["shuffle_mode"]
+    m = modes_of(case, obs)["shuffle_mode"]
     if m == "roll":
         return (i - 1) % b
     if m == "flip":
@@ -345,26 +769,101 @@ def expected_partner(case, obs, i):
     return perms[0][i]
 
 
+def half_exact(lam, h):
+    """floor(0.5*sqrt(1-lam)*h) for a rational lam in [0,1], by integer square root"""
+    t = (1 - Fraction(lam)) * h * h / 4
+    return isqrt(t.numerator // t.denominator)
+
+
+def halves_allowed(lam, h, tol):
+    """the exact half size, plus a neighbour only where v = 0.5*sqrt(1-lam)*h is within tol of the jump"""
+    lam = Fraction(lam)
+    e = half_exact(lam, h)
+    t = (1 - lam) * h * h                       # = 4 v^2
+    out = {e}
+    x = Fraction(e + 1) - tol                   # v >= e + 1 - tol ?
+    if x <= 0 or 4 * x * x <= t:
+        out.add(e + 1)
+    x = Fraction(e) + tol                       # v <= e + tol ?
+    if e >= 1 and t <= 4 * x * x:
+        out.add(e - 1)
+    return out
+
+
+def cut_draws(case, obs):
+    """-> per-box (lambda as held by the implementation, centre row, centre col) reconstructed from the recorded draws
+    alone (independent of what get_random_bbox was called with)"""
+    m = modes_of(case, obs)
+    tr = obs["trace"]
+    ints = [d for d in tr if d[0] == "ints"]
+    if len(ints) != 2:
+        return None
+    if m["lamb_mode"] == "batch":
+        betas = [d for d in tr if d[0] == "beta"]
+        if len(betas) != 1:
+            return None
+        lams = [f32(betas[0][2])]               # torch.tensor([rng.beta(..)]) is a float32 tensor
+    else:
+        betas = [d for d in tr if d[0] == "betas"]
+        if not betas:
+            return None
+        lams = list(betas[-1][2])               # the cutmix betas are drawn after the mixup betas; float64
+    if not (len(lams) == len(ints[0][2]) == len(ints[1][2])):
+        return None
+    return list(zip(lams, ints[0][2], ints[1][2]))
+
+
+def expected_error(case, obs):
+    r = obs["result"]
+    m = modes_of(case, obs)
+    b = case["B"]
+    has_cls = "class" in case["tokens"]
+    if r == "AssertionError:flip":
+        return m["shuffle_mode"] == "flip" and b % 2 == 1 and b > 1
+    if r == "AssertionError:label":
+        return has_cls and not labels_valid(case)
+    if r == "ValueError:unpack":
+        return case.get("xrank", "chw") != "chw" and (m["cutmix_p"] or 0.0) > 0
+    if r == "RuntimeError:cast":
+        return not case.get("xdtype", "float32").startswith("float") and (m["mixup_p"] or 0.0) > 0
+    if r == "TypeError:view":
+        return case.get("xrank", "chw") == "b" and m["lamb_mode"] == "sample" and (m["mixup_p"] or 0.0) > 0
+    if r == "TypeError:nox":
+        return "x" not in case["tokens"]
+    return False
+
+
 def oracle(case, obs):
     if "harness_exception" in obs:
         return "harness exception: " + obs["harness_exception"] + obs.get("tb", "")
-    b, h, w = case["B"], case["H"], case["W"]
+    b = case["B"]
+    _, h, w = eff_dims(case)
+    m = modes_of(case, obs)
     if obs["result"] != "ok":
-        if obs["result"] == "AssertionError" and case["shuffle_mode"] == "flip" and b % 2 == 1 and b > 1:
+        if expected_error(case, obs):
             return None
         return "collator raised " + obs["result"]
     if obs["layout"] not in ("tensor", "tuple"):
         return f"batch layout changed: mode {case['tokens']} returned {obs['layout']}"
-    if not obs["others_ok"] or not obs["ctx_k_ok"]:
-        return "an item other than x/class (or a propagated ctx entry) was changed by the collator"
+    if case.get("loader") and obs["batch_sizes"][-1] != b:
+        return f"loader batch sizes {obs['batch_sizes']}, the checked batch should have {b} samples"
+    if "class" in case["tokens"] and not labels_valid(case):
+        return "labels that are neither rows nor scalars in [0,1] were accepted"
+    if not obs["others_ok"]:
+        return "an item other than x/class was changed by the collator"
+    if not obs["ctx_user_ok"]:
+        return ("a context entry recorded by the dataset was changed, dropped or added by the collator: "
+                f"keys {obs['ctx_keys']}")
     lam_all, cut_all = obs["lambda"], obs["cutmix"]
-    n_l = 1 if case["lamb_mode"] == "batch" else b
+    n_l = 1 if m["lamb_mode"] == "batch" else b
     if len(lam_all) != n_l or len(cut_all) != n_l:
         return f"ctx lambda/use_cutmix have lengths {len(lam_all)}/{len(cut_all)}, expected {n_l}"
     if not all(obs["apply"]) or len(obs["apply"]) != b:
         return "ctx['apply'] is not all-true although mixup_p + cutmix_p == 1"
     Y = [[float(v) for v in row] for row in label_matrix(case)]
-    onehot = case["labels"][0].startswith("onehot")
+    rows_prob = all(min(r) >= 0 and sum(Fraction(v) for v in r) == 1 for r in label_matrix(case))
+    boxes = cut_draws(case, obs) if any(cut_all) else None
+    tol = Fraction(1, 10000) if m["lamb_mode"] == "batch" else Fraction(1, 1000000)
     for i in range(b):
         lam = lam_all[0] if n_l == 1 else lam_all[i]
         cut = cut_all[0] if n_l == 1 else cut_all[i]
@@ -380,7 +879,19 @@ def oracle(case, obs):
         if s[0] == "O":
             why = "image is " + s[1]
         elif cut:
-            if s[0] == "P":
+            # the box the formula prescribes for the recorded lambda and centre (independent of the implementation)
+            want = None
+            if boxes is None:
+                why = "cutmix flagged but the draws are not [beta(s), integers(h), integers(w)]"
+            else:
+                lam_d, chh, cww = boxes[0] if n_l == 1 else boxes[i]
+                want = set()
+                for hh in halves_allowed(lam_d, h, tol):
+                    for wh in halves_allowed(lam_d, w, tol):
+                        want.add((max(chh - hh, 0), max(cww - wh, 0), min(chh + hh, h), min(cww + wh, w)))
+            if why:
+                pass
+            elif s[0] == "P":
                 top, left, bot, right = s[2]
                 if s[1] != p:
                     why = f"box pasted from sample {s[1]}, shuffle mode prescribes {p}"
@@ -389,12 +900,20 @@ def oracle(case, obs):
                 elif abs(1.0 - (bot - top) * (right - left) / (h * w) - lam) > 1e-5:
                     why = (f"image keeps {1.0 - (bot - top) * (right - left) / (h * w):.4f} of sample {i} "
                            f"(box {s[2]} from sample {s[1]}), ctx lambda says {lam:.4f}")
+                elif tuple(s[2]) not in want:
+                    why = (f"pasted box {s[2]} is not the box floor(0.5*sqrt(1-lambda)*(h,w)) around the drawn centre "
+                           f"({chh},{cww}) for the drawn lambda {float(lam_d):.6f}: expected {sorted(want)} "
+                           f"(area fraction before clipping should be ~ 1-lambda = {1 - float(lam_d):.4f})")
             else:
-                v = (s[1], s[2])
+                v = (s[1], s[2] if s[2] is not None else own[1])
+                areas = {(bo - t) * (r - l) for (t, l, bo, r) in want}
                 if v == own and (p == i or abs(lam - 1.0) <= 1e-5):
-                    pass
+                    if p != i and 0 not in areas:
+                        why = (f"nothing was pasted, the formula prescribes a box of area {sorted(areas)} for the "
+                               f"drawn lambda {float(lam_d):.6f}")
                 elif v == oth and abs(lam) <= 1e-5:
-                    pass
+                    if h * w not in areas:
+                        why = f"the whole image was replaced, the formula prescribes box areas {sorted(areas)}"
                 else:
                     why = f"cutmix flagged, image is uniform {v}, lambda {lam:.4f}, partner {p}"
         else:
@@ -402,8 +921,8 @@ def oracle(case, obs):
                 why = f"mixup flagged (use_cutmix false) but a box {s[2]} of sample {s[1]} was pasted; ctx lambda {lam:.4f}"
             else:
                 e1, e2 = lam * own[0] + (1 - lam) * oth[0], lam * own[1] + (1 - lam) * oth[1]
-                if abs(s[1] - e1) > 2e-3 or abs(s[2] - e2) > 2e-3:
-                    why = (f"image pixels ({s[1]:.4f}, {s[2]:.4f}) are not {lam:.4f}*x_{i} + {1 - lam:.4f}*x_{p} "
+                if abs(s[1] - e1) > 2e-3 or (s[2] is not None and abs(s[2] - e2) > 2e-3):
+                    why = (f"image pixels ({s[1]:.4f}, {s[2]}) are not {lam:.4f}*x_{i} + {1 - lam:.4f}*x_{p} "
                            f"= ({e1:.4f}, {e2:.4f})")
         if why:
             return f"sample {i} (partner {p}, ctx lambda {lam:.4f}, use_cutmix {cut}): {why}"
@@ -413,9 +932,9 @@ def oracle(case, obs):
             if len(row) != len(exp) or any(abs(a - e) > 1e-5 for a, e in zip(row, exp)):
                 return (f"sample {i}: label {row} is not {lam:.4f}*y_{i} + {1 - lam:.4f}*y_{p} = {exp} "
                         f"(image uses partner {p} and weight {lam:.4f})")
-            if onehot and (abs(sum(row) - 1.0) > 1e-5 or min(row) < 0.0):
+            if rows_prob and (abs(sum(row) - 1.0) > 1e-5 or min(row) < 0.0):
                 return f"sample {i}: label row {row} is not a probability vector"
-            if obs["lab_ndim"] != (2 if onehot else 1):
+            if obs["lab_ndim"] != label_ndim(case):
                 return "label tensor changed its number of dimensions"
     return None
 
@@ -449,53 +968,120 @@ def draw(d):
 
 
 def coq_applicable(case, obs):
-    if "harness_exception" in obs:
+    if "harness_exception" in obs or obs.get("trace") is None:
         return False
     if obs["result"] == "ok":
         return obs["layout"] in ("tensor", "tuple")
-    return obs["result"] == "AssertionError"
+    return obs["result"] in OUTCOME
 
 
 def coq_case(case, obs):
     mode = {"batch": Raw("PerBatch"), "sample": Raw("PerSample")}
+    m = modes_of(case, obs)
+    _, h, w = eff_dims(case)
+    mp, cp = m["mixup_p"] or 0.0, m["cutmix_p"] or 0.0
     cfg = Rec(
-        bsz=Nat(case["B"]), img_h=case["H"], img_w=case["W"],
-        mixup_p=q(case["mixup_p"] or 0.0), cutmix_p=q(case["cutmix_p"] or 0.0),
-        total_p=q((case["mixup_p"] or 0.0) + (case["cutmix_p"] or 0.0)),
-        mixup_alpha=Opt(None if case["mixup_alpha"] is None else q(float(case["mixup_alpha"]))),
-        cutmix_alpha=Opt(None if case["cutmix_alpha"] is None else q(float(case["cutmix_alpha"]))),
-        apply_mode=mode[case["apply_mode"]], lamb_mode=mode[case["lamb_mode"]],
-        shuf=Raw({"roll": "Roll", "flip": "Flip", "random": "Random"}[case["shuffle_mode"]]),
+        bsz=Nat(case["B"]), img_h=h, img_w=w,
+        mixup_p=q(mp), cutmix_p=q(cp), total_p=q(mp + cp),
+        mixup_alpha=Opt(None if m["mixup_alpha"] is None else q(float(m["mixup_alpha"]))),
+        cutmix_alpha=Opt(None if m["cutmix_alpha"] is None else q(float(m["cutmix_alpha"]))),
+        apply_mode=mode[m["apply_mode"]], lamb_mode=mode[m["lamb_mode"]],
+        shuf=Raw({"roll": "Roll", "flip": "Flip", "random": "Random"}[m["shuffle_mode"]]),
         tokens=[tok(t) for t in case["tokens"]],
+        x_rank=Nat(XRANK[case.get("xrank", "chw")]),
+        x_float=case.get("xdtype", "float32").startswith("float"),
+        lab_ndim=Nat(label_ndim(case)),
     )
     halves = [(a, b) for a, b in obs["halves"]]
     tr = [draw(d) for d in obs["trace"]]
     Y = [[q(v) for v in row] for row in label_matrix(case)]
     ok = obs["result"] == "ok"
     if ok:
-        batch_in = [C("IOther", [] if o in ("X", "Y") else list(o)) for o in obs["others"]]
+        batch_in = [C("IOther", [] if o in ("X", "Y") else list(o)) for o in obs["others_in"]]
+        ctx_in = [(C("KUser", Nat(j)), C("VRaw", list(v))) for j, v in obs["ctx_in"]]
         imgs = []
-        for s in obs["img"]:
+        for i, s in enumerate(obs["img"]):
             if s[0] == "U":
+                if s[2] is None:       # a single pixel has no odd position: nothing to compare there
+                    p = expected_partner(case, obs, i) or 0
+                    lam = obs["lambda"][0] if len(obs["lambda"]) == 1 else obs["lambda"][i]
+                    s = [s[0], s[1], lam * i * i + (1 - lam) * p * p]
                 imgs.append(C("OUniform", q(s[1]), q(s[2])))
             elif s[0] == "P":
                 imgs.append(C("OPatch", Nat(s[1]), tuple(s[2])))
             else:
                 imgs.append(Raw("OOther"))
         labs = Opt([[q(v) for v in row] for row in obs["lab"]]) if "lab" in obs else Raw("None")
-        o = Rec(o_imgs=imgs, o_labs=labs, o_apply=obs["apply"], o_cutmix=obs["cutmix"],
-                o_lambda=[q(v) for v in obs["lambda"]],
-                o_batch=[Raw("BX") if x == "X" else Raw("BY") if x == "Y" else C("BRaw", list(x)) for x in obs["others"]])
+        octx = []
+        for e in obs["ctx_out"]:
+            if e[0] == "u":
+                octx.append((C("KUser", Nat(e[1])), C("VRaw", [v if isinstance(v, int) else -1 for v in e[2]])))
+            elif e[0] == "apply":
+                octx.append((Raw("KApply"), C("VBools", list(obs["apply"]))))
+            elif e[0] == "use_cutmix":
+                octx.append((Raw("KCutmix"), C("VBools", list(obs["cutmix"]))))
+            elif e[0] == "lambda":
+                octx.append((Raw("KLambda"), C("VLams", [q(v) for v in obs["lambda"]])))
+            else:
+                octx.append((C("KUser", Nat(999)), C("VRaw", [])))
+        o = Rec(o_imgs=imgs, o_labs=labs, o_lab_ndim=Nat(obs.get("lab_ndim", 0)), o_apply=obs["apply"],
+                o_cutmix=obs["cutmix"], o_lambda=[q(v) for v in obs["lambda"]],
+                o_batch=[Raw("BX") if x == "X" else Raw("BY") if x == "Y" else C("BRaw", list(x)) for x in obs["others"]],
+                o_ctx=octx, o_held=[q(v) for v in obs["held"]])
     else:
         batch_in = [C("IOther", []) for _ in case["tokens"]]
-        o = Rec(o_imgs=[], o_labs=Raw("None"), o_apply=[], o_cutmix=[], o_lambda=[], o_batch=[])
-    return coq((cfg, halves, tr, Y, batch_in, Nat(0 if ok else 1), o))
+        ctx_in = []
+        o = Rec(o_imgs=[], o_labs=Raw("None"), o_lab_ndim=Nat(0), o_apply=[], o_cutmix=[], o_lambda=[], o_batch=[],
+                o_ctx=[], o_held=[])
+    return coq((cfg, halves, tr, Y, batch_in, ctx_in, Nat(OUTCOME[obs["result"]]), o))
 
 
 # ---------------------------------------------------------------------------
 # cases
 # ---------------------------------------------------------------------------
-def gen_case(rng, big=False):
+def gen_labels(rng, case, kinds):
+    b = max(case["B"], (case.get("loader") or {}).get("full", 0))
+    kind = rng.choice(kinds)
+    case["ncls"] = 0
+    if kind == "onehot_id":
+        case["ncls"] = max(2, b + rng.choice([0, 0, 1, 3]))
+        lab = [kind, list(range(b))]
+    elif kind in ("onehot_rand", "onehot_long"):
+        case["ncls"] = rng.randint(2, 6)
+        lab = [kind, [rng.randrange(case["ncls"]) for _ in range(b)]]
+    elif kind == "soft":
+        n = case["ncls"] = rng.randint(2, 5)
+        vals = []
+        for _ in range(b):
+            cuts = sorted(rng.randint(0, 16) for _ in range(n - 1))
+            vals.append([y - x for x, y in zip([0] + cuts, cuts + [16])])
+        lab = [kind, vals]
+    elif kind == "smooth":
+        case["ncls"] = rng.choice([2, 3, 4, 5, 8, max(2, b)])
+        lab = [kind, [rng.randrange(case["ncls"]) for _ in range(b)], rng.choice([0.1, 0.125, 0.25, 0.5, 1.0, 0.3])]
+    elif kind == "binary_smooth":
+        lab = [kind, [rng.randint(0, 1) for _ in range(b)], rng.choice([0.1, 0.125, 0.25, 0.5, 1.0])]
+    elif kind == "binary":
+        lab = [kind, [rng.randint(0, 16) for _ in range(b)]]
+    elif kind == "binary_out":
+        vals = [rng.randint(0, 16) for _ in range(b)]
+        vals[rng.randrange(case["B"])] = rng.choice([17, -1, 32, 18])
+        lab = [kind, vals]
+    elif kind == "index":
+        case["ncls"] = rng.randint(2, 6)
+        lab = [kind, [rng.randrange(case["ncls"]) for _ in range(b)]]
+    elif kind == "rank3":
+        lab = [kind, [rng.randint(0, 1) for _ in range(b)]]
+    else:
+        lab = ["binary_int", [rng.randint(0, 1) for _ in range(b)]]
+    case["labels"] = lab
+
+
+LABEL_KINDS = (["onehot_id"] * 9 + ["onehot_rand", "onehot_rand", "onehot_long", "soft", "soft", "smooth", "smooth",
+               "binary", "binary", "binary_int", "binary_smooth", "index", "binary_out", "rank3"])
+
+
+def gen_case(rng, big=False, tier="quick"):
     shuffle_mode = rng.choice(["roll", "flip", "random"])
     b = rng.randint(1, 9)
     if shuffle_mode == "flip" and b % 2 == 1 and rng.random() < 0.85:
@@ -514,44 +1100,75 @@ def gen_case(rng, big=False):
         "shuffle_mode": shuffle_mode,
         "rng": [rng.choice(["numpy", "numpy", "script"]), rng.randrange(10 ** 6)],
     }
-    case["mixup_p"] = case["mixup_p"]
+    if big and rng.random() < 0.15:
+        case["H"], case["W"] = rng.randint(18, 40), rng.randint(18, 40)
+        case["C"] = 1
     toks = ["x"]
     if rng.random() < 0.9:
         toks.append("class")
     if rng.random() < 0.4:
         toks.append("index")
-    for k in range(rng.choice([0, 0, 0, 1, 2])):
+    for k in range(rng.choice([0, 0, 0, 1, 2, 3])):
         toks.append(f"aux{k}")
     rng.shuffle(toks)
     case["tokens"] = toks
-    kind = rng.choice(["onehot_id", "onehot_id", "onehot_id", "onehot_rand", "binary", "binary_int"])
-    if kind == "onehot_id":
-        case["ncls"] = max(2, b + rng.choice([0, 0, 1, 3]))
-        vals = list(range(b))
-    elif kind == "onehot_rand":
-        case["ncls"] = rng.randint(2, 6)
-        vals = [rng.randrange(case["ncls"]) for _ in range(b)]
-    elif kind == "binary":
-        case["ncls"] = 0
-        vals = [rng.randint(0, 16) for _ in range(b)]
+    aux = [t for t in toks if t.startswith("aux")]
+    if aux and rng.random() < 0.7:
+        case["auxdt"] = {t: rng.choice(AUX_KINDS) for t in aux}
+    # pipeline
+    r = rng.random()
+    if r < 0.4:
+        case["pipe"] = "direct"
+    elif r < 0.65:
+        case["pipe"] = "compose"
+    elif r < 0.85:
+        case["pipe"] = "single_wrapper"
     else:
-        case["ncls"] = 0
-        vals = [rng.randint(0, 1) for _ in range(b)]
-    case["labels"] = [kind, vals]
-    # the constructor's view of the probabilities
-    case["mixup_p"] = case["mixup_p"] if case["mixup_p"] is not None else None
-    return case
-
-
-def _norm(case):
-    """cutmix_p / mixup_p None are passed as None to the ctor; keep floats for the Coq side"""
+        # the shipped configuration: x class, no ctx returned, batch / batch / flip, 0.5 / 0.5, alphas 0.8 / 1.0
+        case["pipe"] = "mae"
+        case.update(MAE_CFG)
+        if b % 2 == 1 and b > 1 and rng.random() < 0.85:
+            case["B"] = b = b + 1
+        case["tokens"] = ["x", "class"]
+        case.pop("auxdt", None)
+    if case["pipe"] != "mae":
+        case["rc"] = rng.random() < 0.8
+        if case["rc"] and rng.random() < 0.6:
+            case["ctxitems"] = [rng.choice(CTX_KINDS) for _ in range(rng.randint(1, 3))]
+    # through a DataLoader
+    r = rng.random()
+    if r < 0.25:
+        full = max(b, rng.randint(1, 9))
+        if case["shuffle_mode"] == "flip" and full % 2 == 1:
+            full += 1
+        k = rng.choice([0, 1, 1, 2]) if full > b else rng.choice([0, 0, 1])
+        workers = 2 if (tier == "thorough" and rng.random() < 0.25) else 0
+        case["loader"] = {"full": full, "k": k, "workers": workers}
+        if workers:
+            case["rng"][0] = "worker"
+    gen_labels(rng, case, LABEL_KINDS)
+    # image dtype / rank outside the usual
+    r = rng.random()
+    if r < 0.08:
+        case["xdtype"] = "float64"
+    elif r < 0.14:
+        case["xdtype"] = rng.choice(["uint8", "int64"])
+        if case["xdtype"] == "uint8":
+            case["C"] = min(case["C"], 2)
+    r = rng.random()
+    if r < 0.10:
+        case["xrank"] = rng.choice(["hw", "hw", "d", "b", "cthw"])
+    if rng.random() < 0.02:
+        case["tokens"] = [t for t in case["tokens"] if t != "x"] or ["class"]
+        if case.get("pipe") == "mae":
+            case["pipe"] = "compose"
     return case
 
 
 def gen_cases(rng, tier):
     n = 900 if tier == "quick" else 7000
-    out = [gen_case(rng) for _ in range(n)]
-    out += [gen_case(rng, big=True) for _ in range(100 if tier == "quick" else 1500)]
+    out = [gen_case(rng, tier=tier) for _ in range(n)]
+    out += [gen_case(rng, big=True, tier=tier) for _ in range(100 if tier == "quick" else 1500)]
     return out
 
 
@@ -562,10 +1179,20 @@ def search_cases(rng, tier):
 
 def shrink(case):
     b = case["B"]
-    kind, vals = case["labels"]
+    lab = case["labels"]
+    kind, vals = lab[0], lab[1]
+    for key in ("loader", "ctxitems", "auxdt", "xdtype", "xrank"):
+        if case.get(key):
+            c = dict(case)
+            c.pop(key)
+            if key == "loader" and c["rng"][0] == "worker":
+                c["rng"] = ["numpy", c["rng"][1]]
+            yield c
+    if case.get("pipe", "direct") not in ("direct", "mae"):
+        yield dict(case, pipe="direct")
     step = 2 if case["shuffle_mode"] == "flip" else 1
-    if b - step >= 1:
-        c = dict(case, B=b - step, labels=[kind, vals[:b - step]])
+    if b - step >= 1 and not case.get("loader"):
+        c = dict(case, B=b - step, labels=[kind, vals[:b - step]] + lab[2:])
         yield c
     for k in ("H", "W"):
         if case[k] > 4:
@@ -573,12 +1200,13 @@ def shrink(case):
             yield dict(case, **{k: 4})
     if case["C"] > 1:
         yield dict(case, C=1)
-    for t in case["tokens"]:
-        if t not in ("x", "class"):
-            yield dict(case, tokens=[u for u in case["tokens"] if u != t])
-    if case["apply_mode"] != "batch":
-        yield dict(case, apply_mode="batch")
-    if case["rng"][1] > 20:
+    if case.get("pipe") != "mae":
+        for t in case["tokens"]:
+            if t not in ("x", "class"):
+                yield dict(case, tokens=[u for u in case["tokens"] if u != t])
+        if case["apply_mode"] != "batch":
+            yield dict(case, apply_mode="batch")
+    if case["rng"][1] > 20 and case["rng"][0] != "worker":
         for s in range(5):
             yield dict(case, rng=[case["rng"][0], s])
 
@@ -591,21 +1219,43 @@ def features(case, obs):
     yield "p=%s/%s" % (case["mixup_p"], case["cutmix_p"])
     yield "labels=" + case["labels"][0]
     yield "rng=" + case["rng"][0]
+    yield "pipe=" + case.get("pipe", "direct")
+    yield "return_ctx=%s" % (False if case.get("pipe") == "mae" else case.get("rc", True))
+    if case.get("loader"):
+        yield "loader workers=%d%s" % (case["loader"]["workers"], " trailing batch" if case["loader"]["full"] > case["B"] else "")
+        if obs.get("worker_first_traces_differ") is not None:
+            yield "worker streams differ=%s" % obs["worker_first_traces_differ"]
+    yield "xdtype=" + case.get("xdtype", "float32")
+    yield "xrank=" + case.get("xrank", "chw")
+    for kind in case.get("ctxitems") or []:
+        yield "ctx entry " + kind
+    for t, kind in (case.get("auxdt") or {}).items():
+        yield "aux item " + kind
     yield "tokens=%d%s" % (len(case["tokens"]), "" if "class" in case["tokens"] else " (no class)")
     yield "result=" + obs.get("result", "harness_exception")[:30]
     for s in obs.get("img", []):
         yield "img=" + s[0]
     if obs.get("cutmix") and len(set(obs["cutmix"])) == 2:
         yield "mixed mixup+cutmix in one batch"
-    for d in obs.get("trace", []):
+    for d in obs.get("trace") or []:
         if d[0] in ("beta", "betas"):
             vals = [d[2]] if d[0] == "beta" else d[2]
             if any(v in (0.0, 1.0) for v in vals):
                 yield "lambda draw exactly 0 or 1"
+    if obs.get("held") and obs.get("result") == "ok":
+        _, h, w = eff_dims(case)
+        tol = Fraction(1, 10000) if modes_of(case, obs)["lamb_mode"] == "batch" else Fraction(1, 1000000)
+        for lam, (hh, wh) in zip(obs["held"], obs["halves"]):
+            if 0 <= lam <= 1:
+                if len(halves_allowed(lam, h, tol)) > 1 or len(halves_allowed(lam, w, tol)) > 1:
+                    yield "half size within tolerance of a floor jump"
+                if hh != half_exact(lam, h) or wh != half_exact(lam, w):
+                    yield "float half size differs from the exact one (inside the band)"
 
 
 def nontrivial_key(case, obs):
     if obs.get("result") != "ok" or case["B"] < 2:
         return None
     return (case["B"], case["H"], case["W"], case["apply_mode"], case["lamb_mode"], case["shuffle_mode"],
-            case["mixup_p"], case["cutmix_p"], tuple(case["tokens"]), case["labels"][0], tuple(obs.get("cutmix", [])))
+            case["mixup_p"], case["cutmix_p"], tuple(case["tokens"]), case["labels"][0], case.get("pipe", "direct"),
+            case.get("xdtype", "float32"), case.get("xrank", "chw"), tuple(obs.get("cutmix", [])))
